@@ -79,3 +79,17 @@ def ops(tier, cols, lines):
         return [l, c]
     out.append(('resize', 'resize', resize_args))
     return out
+
+
+# operations whose loops or clamps depend on the geometry: the ones worth repeating far from the small screens
+GEOMETRY_OPS = {'alignment_display', 'reset', 'index', 'linefeed', 'reverse_index', 'restore_cursor', 'backspace', 'tab',
+                'cariage_return', 'insert_characters', 'cursor_up', 'cursor_down', 'cursor_forward', 'cursor_back',
+                'cursor_down1', 'cursor_up1', 'cursor_to_column', 'insert_lines', 'delete_lines', 'delete_characters',
+                'erase_characters', 'cursor_to_line', 'cursor_position', 'set_margins', 'erase_in_display', 'erase_in_line',
+                'draw', 'resize'}
+
+
+def remote_ops(cols, lines):
+    out = [spec for spec in ops('quick', cols, lines) if spec[1] in GEOMETRY_OPS and spec[0] not in ('draw/zw', 'draw/nul')]
+    out += [spec for spec in ops('quick', cols, lines) if spec[0] in ('set_mode/?DECOM', 'reset_mode/?DECOM', 'set_mode/?DECSCNM')]
+    return out
